@@ -39,13 +39,25 @@ def main():
         i = a.index("--needs")
         needs = a[i + 1]
         a = a[:i] + a[i + 2:]
+    incrate = []
+    while "--incrate" in a:     # --incrate <demo file name>:<dest path in crate>:<file that gets the `mod` line>
+        i = a.index("--incrate")
+        incrate.append(a[i + 1].split(":"))
+        a = a[:i] + a[i + 2:]
     sid, prop, wt, diff, demo = a[:5]
     diff = os.path.abspath(diff)
     meta = {"seed_id": sid, "breaks_property": prop, "needs_to_manifest": needs, "source": "independent sub-agent given only the property text and a scratch worktree",
             "confirmed_at": time.strftime("%Y-%m-%dT%H:%M:%SZ", time.gmtime()), "ran": []}
     demo_tests = [f[:-3] for f in os.listdir(demo) if f.endswith(".rs") and os.path.exists(os.path.join(wt, "tests", f))]
-    meta["demo_tests_run"] = demo_tests
     sh("git checkout -- src", cwd=wt)
+    for (fn, dest, modfile) in incrate:
+        shutil.copy(os.path.join(demo, fn), os.path.join(wt, dest))
+        mod = os.path.basename(dest)[:-3]
+        with open(os.path.join(wt, modfile), "a") as f:
+            f.write("\n#[cfg(test)]\nmod %s;\n" % mod)
+        demo_tests.append(mod)
+    meta["demo_tests_run"] = demo_tests
+    meta["in_crate_demo_scaffolding"] = [{"file": d, "mod_line_in": m} for (_, d, m) in incrate]
     rc, out = sh("git apply --check %s" % diff, cwd=wt)
     if rc != 0:
         print("diff does not apply:", out)
@@ -53,15 +65,26 @@ def main():
     sh("git apply %s" % diff, cwd=wt)
     failed_mut, summ_mut = nextest(wt)
     meta["ran"].append({"cmd": "git apply mut && cargo nextest run --workspace (suite + demo)", "summary": summ_mut, "failed": failed_mut})
-    sh("git checkout -- src", cwd=wt)
-    filt = " ".join("--test %s" % t for t in demo_tests) if demo_tests else ""
+    sh("git apply -R %s" % diff, cwd=wt)
+    if incrate:
+        filt = "-E '%s'" % " | ".join("test(%s)" % t for t in demo_tests)
+    else:
+        filt = " ".join("--test %s" % t for t in demo_tests) if demo_tests else ""
     failed_clean, summ_clean = nextest(wt, filt)
     meta["ran"].append({"cmd": "git checkout -- src && cargo nextest run %s (demo only)" % filt, "summary": summ_clean, "failed": failed_clean})
+    sh("git checkout -- src", cwd=wt)
+    for (fn, dest, modfile) in incrate:
+        if os.path.exists(os.path.join(wt, dest)):
+            os.remove(os.path.join(wt, dest))
     # the fs_disk unit tests share one on-disk scratch directory and race with each other (3 are listed as flaky in the
     # pinned baseline; the others fail the same way on the unmodified tree when binaries run concurrently)
     flaky_seen = [f for f in failed_mut if "fs::fs_disk::" in f]
     meta["flaky_fs_disk_failures_ignored"] = flaky_seen
-    suite_failed = [f for f in failed_mut if not any(d in f for d in demo_tests) and f.split("::")[-1] not in FLAKY and "fs::fs_disk::" not in f]
+    # demonstrations of the sibling mutation live in the same worktree (tests/<cNN>_demo_*.rs): they are not part of the suite
+    other_demos = [f for f in failed_mut if "_demo" in f.split(" ")[0] and not any(d in f for d in demo_tests)]
+    meta["other_demo_failures_ignored"] = other_demos
+    suite_failed = [f for f in failed_mut if not any(d in f for d in demo_tests) and f.split("::")[-1] not in FLAKY and "fs::fs_disk::" not in f
+                    and f not in other_demos]
     demo_failed = [f for f in failed_mut if any(d in f for d in demo_tests)]
     meta["suite_passes_with_change"] = not suite_failed
     meta["demo_fails_with_change"] = bool(demo_failed)
